@@ -166,6 +166,16 @@ def run(rep, tier):
         _domain.check(rep, 'R02.10', fb, [fb.fn(cls + '::getTransitionDomain')], tag)
     first_only(rep, fb)
     closure_loops(rep, fb)
+    nl = 0
+    for q in ENGINES:
+        brk, n = _skel.completion_closure_breaks(fb.fn(q))
+        nl += n
+        eng = q.split('::')[1]
+        for lp, b in brk:
+            rep.fail('R02.11', '%s|deep completion stops at the first member' % eng, locstr(b), 'the loop at %s adds the ancestors of the completion members but leaves at the first one: with an `initial` attribute naming states in several regions the other targets are entered without their parents' % locstr(lp))
+        if not brk:
+            rep.ok('R02.11', eng + '|deep completion', 'every completion member contributes its ancestors (%d loop(s))' % n)
+    rep.minimum('R02.11', nl, 2, 'loops adding the ancestors of completion members in the engines')
     for eq in ENGINES:
         sk = _skel.Skeleton(fb, ex, eq)
         f, g, eng, cls = sk.f, sk.g, sk.eng, sk.cls
